@@ -16,7 +16,10 @@ ORIGIN_HOST = "origin.test"
 PROXY_HOST = "proxy.test"
 SNI_HOST = "sni.test"
 TMO = {"connect": 3, "read": 5, "write": 7, "pool": 11}
-TMO_NAME = {3: "connect", 5: "read", 7: "write", 11: "pool", None: "none"}
+TMO_NAME = {3: "connect", 5: "read", 7: "write", 11: "pool", None: "none", 0.25: "connect"}
+# "tight" variant of a case: a connect timeout SHORTER than the back-off pauses (0.5 s, 1 s, ...), so that the
+# two cannot be confused with each other (the abstract case is the same: tmo = TRUE)
+TMO_TIGHT = dict(TMO, connect=0.25)
 
 
 class H2StubPeer:
@@ -61,6 +64,8 @@ def make_world(case, refuse):
             kw = {}
             if refuse == "socks-greet":
                 kw["method"] = 0xFF
+            if refuse == "socks-greet:unoffered":
+                kw["method"] = "unoffered"
             if refuse == "socks-auth":
                 kw["auth_ok"] = False
             if refuse == "socks-connect":
@@ -107,7 +112,7 @@ def pool_kwargs(case):
 def request_args(case):
     ext = {}
     if case["tmo"]:
-        ext["timeout"] = dict(TMO)
+        ext["timeout"] = dict(TMO_TIGHT if case.get("tight") else TMO)
     if case["sniExt"]:
         ext["sni_hostname"] = SNI_HOST
     url = f"{case['scheme']}://{ORIGIN_HOST}/x"
@@ -459,7 +464,7 @@ def record(case, outcomes, refuse, mode):
     if refuse:
         # the read that DELIVERED the refusing reply is marked by what the peer did, never by how the
         # client reacted: a client that carries on after a refusal must not look like a success
-        want = "connect-resp" if refuse.startswith("connect") else refuse
+        want = "connect-resp" if refuse.startswith("connect") else refuse.split(":")[0]
         for o in ops:
             if o["op"] == "read" and o.get("what") == want and o["res"] == "ok":
                 o["res"] = "refused"
@@ -469,7 +474,7 @@ def record(case, outcomes, refuse, mode):
     extra = {"second": result["second"]} if "second" in result else {}
     return {
         **extra,
-        "case": case,
+        "case": {k: v for k, v in case.items() if k != "tight"},
         "ops": ops,
         "result": res,
         "open_after": open_after,
